@@ -325,7 +325,7 @@ def dynamic_members(sig):
     return False
 
 
-def member_table(rep, idx, sig, table):
+def member_table(rep, idx, sig, table, rule="C20.5"):
     mem = idx.members(sig)
     site = sig.site
     enums = idx.enums
@@ -354,7 +354,7 @@ def member_table(rep, idx, sig, table):
         what = f"{sig.qual}.{name}: {flow}({shape})" + (f" iff {guard}" if guard else "")
         if not decl:
             # a member table that is assembled dynamically (lookup in a prebuilt dict, helper call, ...) cannot be read off
-            rep.form(False, "C20.5", site, what, "member not found in the declaration",
+            rep.form(False, rule, site, what, "member not found in the declaration",
                      wrong=None if dynamic_members(sig) else "member is not declared")
             continue
         f_, sh, conds, ln, arr = decl[0]
@@ -406,9 +406,9 @@ def member_table(rep, idx, sig, table):
             wrong = "present under the wrong condition"
         # a shape expression that differs from the role table may still denote the same shape (rebound parameter, cached
         # value, property with unpacking): no discrepancy is named, the obligation is undecided
-        rep.form(ok_flow and ok_shape and ok_guard, "C20.5", site, what, "; ".join(detail), wrong=wrong)
+        rep.form(ok_flow and ok_shape and ok_guard, rule, site, what, "; ".join(detail), wrong=wrong)
     extra = sorted(set(mem) - set(table))
-    rep.check(not extra, "C20.5", site, f"{sig.qual} has no members beyond its role table", f"unexpected members {extra}", nontrivial=False)
+    rep.check(not extra, rule, site, f"{sig.qual} has no members beyond its role table", f"unexpected members {extra}", nontrivial=False)
 
 
 def parameters(rep, idx, P, sig, icls):
